@@ -71,12 +71,32 @@ HANDLER_SETS = [
 SERVING_SETS = [0, 3, 6]                  # handler sets that can serve the file "f"
 
 
+class CustomError(Exception):
+    """an exception class the server code cannot know"""
+
+
+EXC_CLASSES = [RuntimeError, MemoryError, KeyError, CustomError, OSError, ValueError]
+# fault stations (coq: Tftp.RequestPort.station): 0 log statement of the branch taken (sub-variant 0: its argument
+# socket_address_to_str raises, 1: the logger method raises), 1 prepare_context of handler i, 2 can_handle of handler
+# i, 3 the attribute access request_handler.handle, 4 threading.Thread.start
+ST_LOG, ST_PREPARE, ST_CAN_HANDLE, ST_LOOKUP, ST_THREAD = range(5)
+
+
 class PredHandler(S.TftpRequestHandler):
     """scripted request handler: can_handle is a predicate on the decoded filename; handle returns a tiny file"""
-    def __init__(self, spec):
+    def __init__(self, spec, port=None, index=0):
         self.spec = spec
+        self.port = port
+        self.index = index
+
+    def prepare_context(self, filename):
+        if self.port is not None:
+            self.port.fire(ST_PREPARE, self.index)
+        return None
 
     def can_handle(self, filename, context):
+        if self.port is not None:
+            self.port.fire(ST_CAN_HANDLE, self.index)
         kind, arg = self.spec
         if kind == "const":
             return arg
@@ -85,8 +105,14 @@ class PredHandler(S.TftpRequestHandler):
             return name.startswith(arg)
         return name == arg
 
-    def handle(self, filename, client_address, server_address, context):
+    def _handle(self, filename, client_address, server_address, context):
         return io.BytesIO(b"xy")
+
+    @property
+    def handle(self):
+        if self.port is not None:
+            self.port.fire(ST_LOOKUP, None)
+        return self._handle
 
 
 def handler_sx(spec):
@@ -108,9 +134,13 @@ class _ServerSock:
         pass
 
     def recvfrom(self, n):
+        self.port.armed = None
         if self.script:
             self.current += 1
             data, addr = self.script.pop(0)
+            f = self.port.fault
+            if f is not None and f[0] == self.current:
+                self.port.armed = f                      # one-shot: the first time control reaches the station
             return bytes(data)[:n], addr
         self.port.server._shutdown_requested = True     # what stop() does; the loop leaves at its next round
         raise real_socket.timeout("timed out")
@@ -154,11 +184,26 @@ class Port:
         self.specs = specs
         self.events = []
         self.created = []
-        self.handlers = [PredHandler(s) for s in specs]
+        self.handlers = [PredHandler(s, self, i) for i, s in enumerate(specs)]
         self.server = S.TftpServer(self.handlers, bind_address="::1", bind_port=0)
         self.sock = _ServerSock(self)
+        self.fault = None
+        self.armed = None
+        self.me = threading.get_ident()
 
-    def react(self, items, exclog, pktinfo=None):
+    def fire(self, station, hidx, sub=None):
+        """raise the injected exception if this is the armed station (serve-loop thread only, once)"""
+        f = self.armed
+        if f is None or threading.get_ident() != self.me or f[1] != station:
+            return
+        if station in (ST_PREPARE, ST_CAN_HANDLE) and f[2] != hidx:
+            return
+        if station == ST_LOG and sub is not None and f[4] != sub:
+            return
+        self.armed = None
+        raise EXC_CLASSES[f[3]]("injected fault")
+
+    def react(self, items, exclog, pktinfo=None, fault=None):
         """canonical observations of what ONE run of the serve loop did for the datagrams `items` = [(datagram,
         source address), ...] arriving one after the other, followed by a liveness probe; one observation per item"""
         del self.events[:]
@@ -166,6 +211,8 @@ class Port:
         exclog.port = self
         srv = self.server
         self.pktinfo = pktinfo
+        self.fault = fault
+        self.armed = None
         self.sock.script = [(bytes(d), src) for (d, src) in items] + [(PROBE, PROBE_ADDR)]
         self.sock.current = -1
         srv._socket = self.sock
@@ -189,6 +236,27 @@ class Port:
         shim.socket = lambda **k: _TransferSock([], clock, [])
         old = (S.socket, S.time, S._TftpReadRequest)
         S.socket, S.time, S._TftpReadRequest = shim, types.SimpleNamespace(monotonic=lambda: clock[0]), Rec
+        old_thr, old_str = S.threading, S.socket_address_to_str
+        if fault is not None:
+            class FaultThread(threading.Thread):
+                def start(self_t):
+                    port.fire(ST_THREAD, None)
+                    return super().start()
+            thr = types.SimpleNamespace(**{k: getattr(threading, k) for k in dir(threading) if not k.startswith("__")})
+            thr.Thread = FaultThread
+            S.threading = thr
+
+            def addr_str(a):
+                port.fire(ST_LOG, None, 0)
+                return old_str(a)
+            S.socket_address_to_str = addr_str
+            for lvl in ("debug", "info", "error"):
+                def mk(real):
+                    def method(*a, **k):
+                        port.fire(ST_LOG, None, 1)
+                        return real(*a, **k)
+                    return method
+                setattr(S.logger, lvl, mk(getattr(S.logger, lvl)))
         escaped = None
         hang = False
         try:
@@ -201,7 +269,11 @@ class Port:
                 hang = hang or r._thread.is_alive()
         finally:
             S.socket, S.time, S._TftpReadRequest = old
+            S.threading, S.socket_address_to_str = old_thr, old_str
+            for lvl in ("debug", "info", "error"):
+                S.logger.__dict__.pop(lvl, None)
             srv._shutdown_requested = False
+            self.fault = self.armed = None
         n = len(items)
         obs = [[] for _ in range(n)]
         probe_events = []
@@ -359,8 +431,37 @@ def gen_single(tier, rng):
         yield (d, rng.randrange(len(HANDLER_SETS)), 1 if rng.random() < 0.1 else 0)
 
 
+def fault_cases(tier, rng):
+    """a callee of the request-port thread raises: station x exception class x target datagram x position in a
+    history of three; the datagrams after it (and the probe) must be served as if nothing had happened"""
+    quick = tier == "quick"
+    targets = [rrq(b"f", b"octet", []), rrq(b"f", b"NetAscii", [(b"blksize", b"8")]), rrq(b"zz", b"octet", []),
+               rrq(b"f", b"mail", []), b"\x00\x01f\x00octet", b"\x00\x02w\x00octet\x00", b"\x00\x04\x00\x01", b"\x00",
+               b"\x00\x09"]
+    stations = [(ST_LOG, None, 0), (ST_LOG, None, 1), (ST_LOOKUP, None, 0), (ST_THREAD, None, 0)] + \
+               [(st, i, 0) for st in (ST_PREPARE, ST_CAN_HANDLE) for i in (0, 1, 2)]
+    follow = (rrq(b"f", b"octet", []), 0)
+    for (st, hi, sub) in stations:
+        for cls in range(len(EXC_CLASSES)):
+            for h in (0, 3, 6, 1, 4):
+                if hi is not None and hi >= max(1, len(HANDLER_SETS[h])):
+                    continue
+                for d in targets:
+                    if quick and rng.random() < 0.6:
+                        continue
+                    src = 1 if rng.random() < 0.15 else 0
+                    pos = rng.randrange(3)
+                    items = [follow, follow, (b"\x00\x02", 0)]
+                    items[pos] = (d, src)
+                    yield (tuple(items), h, None, (pos, st, hi, cls, sub))
+                    if rng.random() < 0.3:
+                        yield (((d, src),), h, None, (0, st, hi, cls, sub))
+    # two servers of the same class: a fault in one does not touch the other (separate Port objects are separate
+    # TftpServer objects; the next case of another handler set runs on its own server right after)
+
+
 def gen_cases(tier, rng):
-    """case = (items, handler set, pktinfo kind); items = tuple of (datagram, source): what arrives during ONE run of
+    """case = (items, handler set, pktinfo kind[, fault]); items = tuple of (datagram, source): what arrives during ONE run of
     the serve loop.  Single datagrams first, then histories of 3-5 datagrams (a reply that cannot be sent, a started
     transfer, an undecodable request ... followed by ordinary ones), then the recvmsg/ancillary-data variants."""
     quick = tier == "quick"
@@ -393,6 +494,7 @@ def gen_cases(tier, rng):
         for b in special[:6]:
             yield ((a, b, special[3]), rng.choice(SERVING_SETS), None)
             yield ((special[3], a, b), rng.choice(SERVING_SETS), None)
+    yield from fault_cases(tier, rng)
     for pk in PKTINFO_KINDS[1:]:
         for (d, src) in special + [rng.choice(pool) for _k in range(20 if quick else 300)]:
             for h in (0, 3, 1):
@@ -401,14 +503,17 @@ def gen_cases(tier, rng):
 
 
 # ----------------------------------------------------------------------------- evaluation
-def line(d, hs_index, src, obs):
-    return sx([[d, [handler_sx(s) for s in HANDLER_SETS[hs_index]], SOURCES[src][1] != 0], obs])
+def line(d, hs_index, src, obs, fault=None):
+    fx = [] if fault is None else [fault[1], fault[2] or 0, fault[3]]
+    return sx([[d, [handler_sx(s) for s in HANDLER_SETS[hs_index]], SOURCES[src][1] != 0, fx], obs])
 
 
 def evaluate(cases, ports, exclog):
     """-> [(case, impl observations per item, model observations per item, clauses failed on the model, ... on impl)]"""
-    obs = [ports[h].react([(d, SOURCES[src]) for (d, src) in items], exclog, pk) for (items, h, pk) in cases]
-    lines = [line(d, h, src, o) for (items, h, pk), ol in zip(cases, obs) for (d, src), o in zip(items, ol)]
+    cases = [c if len(c) == 4 else c + (None,) for c in cases]
+    obs = [ports[h].react([(d, SOURCES[src]) for (d, src) in items], exclog, pk, ft) for (items, h, pk, ft) in cases]
+    lines = [line(d, h, src, o, ft if (ft is not None and ft[0] == i) else None)
+             for (items, h, pk, ft), ol in zip(cases, obs) for i, ((d, src), o) in enumerate(zip(items, ol))]
     outs = iter(common.run_model("c09port", lines))
     res = []
     for case, ol in zip(cases, obs):
@@ -433,38 +538,55 @@ def is_known_shape(case, failed):
 
 
 def shrink(case, ports, exclog, keep):
-    """greedy: drop whole datagrams of a history, then bytes, while `keep(case, failed_clauses)` stays true"""
-    items, h, pk = case
+    """greedy: drop whole datagrams of a history (the fault moves with its datagram), then bytes, then the recvmsg
+    variant, while `keep(case, failed_clauses)` stays true"""
+    case = case if len(case) == 4 else case + (None,)
+    items, h, pk, ft = case
     improved = True
     steps = 0
     while improved and steps < 400:
         improved = False
-        cands = [items[:i] + items[i + 1:] for i in range(len(items))] if len(items) > 1 else []
+        cands = []
+        if len(items) > 1:
+            for i in range(len(items)):
+                if ft is not None and ft[0] == i:
+                    continue
+                ft2 = ft if (ft is None or ft[0] < i) else (ft[0] - 1,) + tuple(ft[1:])
+                cands.append((items[:i] + items[i + 1:], h, pk, ft2))
         for j, (d, src) in enumerate(items):
-            cands += [items[:j] + ((d[:i] + d[i + 1:], src),) + items[j + 1:] for i in range(len(d))]
+            cands += [(items[:j] + ((d[:i] + d[i + 1:], src),) + items[j + 1:], h, pk, ft) for i in range(len(d))]
         if pk is not None:
-            cands.append(None)
-        for cand in cands:
+            cands.append((items, h, None, ft))
+        for c2 in cands:
             steps += 1
-            c2 = (items, h, None) if cand is None else (cand, h, pk)
-            (_, _o, _m, _fm, fi), = evaluate([c2], ports, exclog)
-            if keep(c2, fi):
-                items, pk = c2[0], c2[2]
+            (_, o_, m_, _fm, fi), = evaluate([c2], ports, exclog)
+            if keep(c2, fi or (["C09:port_reaction"] if o_ != m_ else [])):
+                items, h, pk, ft = c2
                 improved = True
                 break
             if steps >= 400:
                 break
-    return (items, h, pk)
+    return (items, h, pk, ft)
+
+
+STATION_NAMES = ["log statement / socket_address_to_str", "prepare_context", "can_handle", "handle lookup",
+                 "threading.Thread.start"]
 
 
 def show(case):
-    items, h, pk = case
+    case = case if len(case) == 4 else case + (None,)
+    items, h, pk, ft = case
     d = items[-1][0]
+    fault = None
+    if ft is not None:
+        fault = {"at_datagram": ft[0], "callee": STATION_NAMES[ft[1]] + (f" of handler {ft[2]}" if ft[1] in (1, 2) else "")
+                 + ((" (logger method)" if ft[4] else " (socket_address_to_str)") if ft[1] == 0 else ""),
+                 "raises": EXC_CLASSES[ft[3]].__name__}
     # "content"/"events" are present so that the show() of the TFTP transfer checks (C01.show) can print the case
     return {"_extra": True, "part": "request-port",
             "datagrams": [{"hex": x.hex(), "source": list(SOURCES[src])} for (x, src) in items],
             "datagram_hex": d.hex(), "handlers": [[k, common._jsonable(a)] for (k, a) in HANDLER_SETS[h]],
-            "recvmsg_ancillary_data": pk,
+            "recvmsg_ancillary_data": pk, "injected_fault": fault,
             "source_port_zero": any(SOURCES[src][1] == 0 for (_x, src) in items),
             "content": bytes(d), "events": []}
 
@@ -487,7 +609,7 @@ def port_checks(tier, rng, report):
     logger.propagate = False
     stats = {"port_evaluations": 0, "port_disagreements": 0, "port_impl_failures": 0, "port_model_failures": 0,
              "port_source_port_zero_cases": 0, "port_unsendable_reply_logged_D22": 0, "port_histories": 0,
-             "port_recvmsg_cases": 0,
+             "port_recvmsg_cases": 0, "port_injected_faults": 0,
              "port_reactions": {"nothing": 0, "error1": 0, "error2": 0, "error4": 0, "start": 0, "other": 0}}
     failing = []
     known_like = []
@@ -501,6 +623,7 @@ def port_checks(tier, rng, report):
                 stats["port_evaluations"] += len(case[0])
                 stats["port_histories"] += 1 if len(case[0]) > 1 else 0
                 stats["port_recvmsg_cases"] += 1 if case[2] is not None else 0
+                stats["port_injected_faults"] += 1 if case[3] is not None else 0
                 for (d_, src_), oi in zip(case[0], o):
                     stats["port_source_port_zero_cases"] += src_
                     core = [x for x in oi if x != [4]]
@@ -531,8 +654,10 @@ def port_checks(tier, rng, report):
                     break
         flush()
         for (case, fi, o, m) in failing[:2]:
-            small = shrink(case, ports, exclog, lambda c, f: bool(f) and not is_known_shape(c, f)) if fi else case
+            small = shrink(case, ports, exclog, lambda c, f: bool(f) and not is_known_shape(c, f)) if fi else \
+                (case if len(case) == 4 else case + (None,))
             (_, o2, m2, _fm, fi2), = evaluate([small], ports, exclog)
+            fi2 = fi2 or (["C09:port_reaction"] if o2 != m2 else [])
             if not fi2:
                 small, o2, m2, fi2 = case, o, m, fi
             out.append((show(small), fi2, common._jsonable(o2), common._jsonable(m2)))
